@@ -184,3 +184,23 @@ def rules(t, *a, **kw):
     out = _rules_C03_w6(t, *a, **kw)
     out.append(W6.complete_means_removed(t, "C03.k"))
     return out
+
+
+def constructor_geometry_fixed(t, rid):
+    """CONSTRUCT-ONCE: the geometry of a reassembly (which message, how many slices) is fixed when the SliceConstructor is created: `message_id`
+    and `num_slices` are never stored to afterwards. A constructor that is re-targeted to another message carries over whatever of its
+    progress state (`received`, `num_received_slices`, buffer) the re-initialisation forgets - the next message completes early / with holes."""
+    r = RuleResult(rid, "SliceConstructor.message_id / num_slices are set by construction only (a reassembly is never re-targeted to another message)", floor=0)
+    for fld in ("num_slices", "message_id"):
+        for s in t.stores("slice_constructor::SliceConstructor", fld):
+            r.site(s, fld)
+            r.bad(f"{short(s.fn.path)}|restore|{fld}", s, f"SliceConstructor.{fld} is stored to outside construction: the reassembly state (received flags, received count, buffer) now belongs to another message than the one it was collected for; a forgotten piece of it makes the next message complete with missing or foreign bytes")
+    r.sites += 1
+    return r
+
+
+_rules_C03_w9 = rules
+def rules(t, *a, **kw):
+    out = _rules_C03_w9(t, *a, **kw)
+    out.append(constructor_geometry_fixed(t, "C03.l"))
+    return out
